@@ -6,20 +6,30 @@ import common as C
 from common import Failure, q, z, coq_list, coq_opt, coq_bool
 
 ID = "C20"
-GEN = []
+GEN = ["gen_jets"]
 MODEL_INDEPENDENT_OF_PROOFS = True   # Model/Jets*.v contain no proofs: the correspondence runs even when a proof breaks
 ALLOWED_AXIOMS = []
 TRUSTED = [
     "Coq 8.16.1 kernel + vm_compute (no native_compute)",
-    "hand model coq/Model/Jets.v of JetAnalysis (parameter normalisation, selection, cone association, hole "
-    "subtraction, upper-bound omission, row layout, file open modes, reader), tied by this run's correspondence",
-    "fastjet (oracles, section variables of the model): cluster = ClusterSequence(event, JetDefinition(alg, R))"
-    ".inclusive_jets(0) sorted by pT; acc = PseudoJet.perp()/eta()/phi(); dR = sqrt(d_eta^2 + delta_phi_to^2); "
-    "the harness calls fastjet itself for these",
-    "file system as a value: open(...,'w') truncates/creates, 'a' appends/creates; csv writer/reader round trip "
-    "of ints and floats (checked by the correspondence on read_jet_data)",
-    "float rounding is not modelled (exact Q arithmetic; dyadic inputs make every sum exact); pT comparisons are "
-    "modelled on squares (pT >= b  as  px^2+py^2 >= b^2, b >= 0)",
+    "translator tools/py2coq/gen_jets.py (Python ast, fail-closed) and its fixed runtime coq/Model/JetsRt.v: the reading of "
+    "the Python / csv / file / fastjet primitives that the translated methods call (exceptions as values, the object as a "
+    "record of its five attributes, one file as a value: 'w' truncates/creates, 'a' appends/creates, 'r' needs the file; "
+    "int()/float() of a csv cell; JetDefinition/SelectorEtaRange/ClusterSequence as records, inclusive_jets(ptmin) = the "
+    "oracle's jets with pT >= ptmin, sorted_by_pt = identity on the oracle's sorted list, selector = lo <= eta <= hi; "
+    "warnings.warn/print have no effect; isinstance/len of the typed range pairs are true/2)",
+    "hand model coq/Model/Jets.v: PROVED EQUAL (C20_source_*) to the method bodies regenerated from the current "
+    "JetAnalysis.py - __init__, __initialize_and_check_parameters, create_fastjet_PseudoJets, fill_associated_particles, "
+    "jet_hole_subtraction, write_jet_output, perform_jet_finding (model algorithms antikt/kt/cambridge), read_jet_data and "
+    "the keyword defaults; additionally run against the real code by this run's correspondence. NOT tied by a theorem: "
+    "get_jets / get_associated_particles (correspondence + oracle only), the generalised-kt branch of perform_jet_finding "
+    "(translated, but no oracle for it), the object's attributes after a call that raised",
+    "fastjet (oracles, section variables): cluster = ClusterSequence(event, JetDefinition(alg, R)).inclusive_jets(0) sorted "
+    "by pT; PseudoJet.perp()/eta()/phi(); delta_phi_to; np.sqrt - the model's dR is proved to be instantiated with the "
+    "source's formula sqrt((eta_p - eta_jet)**2 + delta_phi_to**2); the harness calls fastjet itself for these",
+    "csv writer/reader round trip of ints and floats (checked by the correspondence on read_jet_data)",
+    "float rounding is not modelled (exact Q arithmetic; dyadic inputs make every sum exact); the source's `perp() < upper "
+    "bound` equals the model's comparison on squares under the stated hypothesis that perp() is the non-negative root of "
+    "px^2+py^2 on the compared jets (C20_source_write / C20_source_perform; non-vacuity: C20_source_example)",
 ]
 ASSUMPTIONS = [
     "momenta, energies, pdg finite/set; a particle's status may be unset (the real code raises ValueError, modelled)",
@@ -27,6 +37,9 @@ ASSUMPTIONS = [
     "jet algorithm among antikt / kt / cambridge (the genkt variants take an extra parameter and are not exercised)",
     "kt algorithm with R^2 not a power of two: fastjet applies the lower pT cut to kt2*R^2*(1/R^2), so a jet lying exactly "
     "on the lower bound is rounding-dependent there; such coincidences are not generated (exact arithmetic in the model)",
+    "C20_source_fill: the object holds the event list and R (set by the parameter check) and the event index is in range; "
+    "C20_source_write / C20_source_perform: perp() is the non-negative root of px^2+py^2 on the hole-subtracted jets "
+    "that are compared with the upper bound, which is non-negative (proved from the parameter check)",
 ]
 
 ALGS = {"antikt": 0, "kt": 1, "cambridge": 2}
@@ -103,8 +116,13 @@ def run_impl(case):
             err = None
             try:
                 with contextlib.redirect_stdout(io.StringIO()):
-                    ja.perform_jet_finding(mk_events(call["events"]), call["R"], tuple(call["eta"]), tuple(call["pt"]),
-                                           path, assoc_only_charged=call["charged"], jet_algorithm=fj_alg(call["alg"]))
+                    if call.get("defaults"):
+                        # keyword parameters left to their documented defaults (charged only, anti-kt): the case
+                        # carries charged=True / alg="antikt", which is what the oracle and the model are given
+                        ja.perform_jet_finding(mk_events(call["events"]), call["R"], tuple(call["eta"]), tuple(call["pt"]), path)
+                    else:
+                        ja.perform_jet_finding(mk_events(call["events"]), call["R"], tuple(call["eta"]), tuple(call["pt"]),
+                                               path, assoc_only_charged=call["charged"], jet_algorithm=fj_alg(call["alg"]))
             except Exception as e:
                 err = type(e).__name__
             calls.append({"err": err, "file": read_lines(path)})
@@ -236,7 +254,16 @@ def oracle(case):
     prescribes for that call (recomputed here from fastjet), and read_jet_data returns them jet by jet"""
     got = run_impl(case)
     last_rows = None
+    before = case["prior"]
     for n, (call, g) in enumerate(zip(case["calls"], got["calls"])):
+        # arguments the implementation documents as rejected (C20_rejects): ValueError, the file is left as it was
+        if call["R"] <= 0 or any(b is not None and b < 0 for b in call["pt"]):
+            if g["err"] != "ValueError":
+                return (f"call {n}: jet_R={call['R']!r}, jet_pT_range={call['pt']!r} is documented as rejected (jet_R must be "
+                        f"larger than 0, pT bounds non-negative) but the call {'raised ' + g['err'] if g['err'] else 'was accepted'}")
+            if g["file"] != before:
+                return f"call {n}: the rejected call changed the output file ({before!r} -> {g['file']!r})"
+        before = g["file"]
         if g["err"] is not None:
             if justified_rejection(call):
                 last_rows = None
@@ -335,6 +362,8 @@ def gen_call(rng, shape=None):
     # events meant to be jet-less but holding particles: raise the lower bound above every jet of these events
     # (possible only when they are soft) - otherwise keep them as they are; the distribution is recorded
     call["events"] = [ev if not (i in empty and ev) else soften(ev, call) for i, ev in enumerate(events)]
+    if rng.random() < 0.12:
+        call["defaults"], call["charged"], call["alg"] = True, True, "antikt"
     tweak_bounds(rng, call)
     sanitize(call)
     return call
@@ -436,7 +465,7 @@ def gen_case(rng, small=False):
     ncalls = 1 if rng.random() < 0.5 else 2
     calls = [gen_call(rng) for _ in range(ncalls)]
     reuse = ncalls == 2 and rng.random() < 0.6
-    if reuse and rng.random() < 0.5:
+    if reuse and rng.random() < 0.5 and not calls[1].get("defaults"):
         calls[1]["alg"] = calls[0]["alg"]                # same algorithm, (usually) another radius
     x = rng.random()
     if x < 0.05:
@@ -641,6 +670,8 @@ def describe(case, got, dist):
         if "boundary" in call:
             bump("boundary " + call["boundary"])
         bump("charged_only" if call["charged"] else "all_assoc")
+        if call.get("defaults"):
+            bump("keyword defaults")
         bump("alg:" + call["alg"])
         eta, pt = call["eta"], call["pt"]
         if eta[0] is not None and eta[1] is not None and eta[0] > eta[1]:
@@ -703,7 +734,7 @@ def correspondence(ctx, model_ok=True):
                 "jetless:middle", "jetless:last", "jetless:all", "jetless:none", "boundary dR==R", "boundary eta==limit",
                 "boundary pT==bound", "particle exactly on the cone edge", "eta limits swapped", "pT limits swapped",
                 "eta limit None", "pT limit None", "charged_only", "all_assoc", "alg:antikt", "alg:kt", "alg:cambridge",
-                "call raised ValueError", "jets with holes in cone", "jets with neutral holes in cone"]
+                "call raised ValueError", "jets with holes in cone", "jets with neutral holes in cone", "keyword defaults"]
     missing = [k for k in required if not dist.get(k)]
     if missing:
         out["broken"].append({"what": "generator self-test: input categories never reached", "detail": missing})
@@ -745,12 +776,67 @@ def correspondence(ctx, model_ok=True):
 
 
 # --------------------------------------------------------------------------- search on the real code
+def probes():
+    """deterministic inputs aimed at what tools/py2coq/gen_jets.py extracts from the source (operators, constants,
+    defaults, argument order, row layout, file modes): used first by `search` when the translator aborts or a
+    C20_source_* theorem no longer checks"""
+    import random
+    rng = random.Random(2020)
+    out = []
+    # (a) a fixed event with a status-0 neutral hadron, a neutral and a charged hole inside the cone, a hole far away,
+    #     a second soft jet; windows / bounds on, between and beyond the limits, swapped, equal, None, zero
+    ev0 = [[3.0, 4.0, 0.0, 5.0, 1, 1, 211], [3.0, 4.0, 0.5, 5.25, 0, 0, 111], [2.5, 4.0, 0.0, 5.0, -11, 1, 321],
+           [3.0, 3.5, 0.25, 4.75, -1, 0, 2112], [-4.0, 3.0, 0.0, 5.0, -27, -1, -211], [-1.5, -2.0, 1.0, 2.75, 27, -1, -321]]
+    ev1 = [[0.75, 1.0, 0.0, 1.25, 11, 0, 22], [-6.0, 8.0, 0.5, 10.25, 1, 1, 2212], [-6.0, 7.5, 0.5, 9.75, -1, 0, 130]]
+    for eta in ([None, None], [0.0, 0.0], [2.0, -2.0], [None, 0.25], [0.25, None], [-0.25, 0.125]):
+        for pt in ([None, None], [0.0, None], [None, 0.0], [2.5, 2.5], [10.0, 2.5], [2.5, 12.5], [None, 7.0], [1.25, None]):
+            for charged in (True, False):
+                alg = ["antikt", "kt", "cambridge"][len(out) % 3]
+                out.append({"prior": [OLDROWS, None, [FOREIGN[0]]][len(out) % 3][:2] if len(out) % 3 != 1 else None,
+                            "calls": [{"events": [[], ev0, ev1], "R": [0.5, 1.0][len(out) % 2], "alg": alg,
+                                       "charged": charged, "eta": list(eta), "pt": list(pt)}]})
+    # (b) the keyword parameters left to their defaults; two calls into one file with one object
+    for k in range(12):
+        c = gen_case(rng)
+        for call in c["calls"]:
+            call.pop("boundary", None)
+            call["defaults"], call["charged"], call["alg"] = True, True, "antikt"
+        out.append(c)
+    out.append({"prior": None, "reuse": True, "calls": [
+        {"events": [ev0, ev1], "R": 0.5, "alg": "antikt", "charged": True, "eta": [None, None], "pt": [None, None], "defaults": True},
+        {"events": [ev1, [], ev0], "R": 1.0, "alg": "antikt", "charged": True, "eta": [-1.0, 1.0], "pt": [1.0, None], "defaults": True}]})
+    # (c) every boundary category of the generator: dR == R, eta == limit, pT == bound (clustered / hole-subtracted)
+    want = {"dR==R": 8, "eta==limit": 8, "pT==bound": 10}
+    for _ in range(800):
+        if not any(v > 0 for v in want.values()):
+            break
+        c = gen_case(rng)
+        b = [call.get("boundary") for call in c["calls"] if call.get("boundary")]
+        if b and want.get(b[0], 0) > 0:
+            want[b[0]] -= 1
+            out.append(c)
+    # (d) rejected arguments and an unset status
+    base = {"events": [ev0], "R": 0.5, "alg": "antikt", "charged": False, "eta": [None, None], "pt": [None, None]}
+    for ch in ({"R": 0.0}, {"R": -1.0}, {"pt": [-1.0, None]}, {"pt": [None, -0.5]}, {"pt": [0.0, 0.0]}, {"R": 0.0009765625}):
+        out.append({"prior": OLDROWS[:2], "calls": [{**base, **ch}]})
+    unset = [list(p) for p in ev0]
+    unset[1][4] = None
+    out.append({"prior": None, "calls": [{**base, "events": [ev1, unset]}]})
+    return out
+
+
 def search(ctx):
-    """property oracle on the real code over small random cases; the first failing case is shrunk"""
+    """property oracle on the real code: the targeted probes first (see `probes`), then small random cases; the
+    first failing case is shrunk"""
     found, n = [], 0
     budget = 200 if ctx.quick else 2000
-    for i in range(budget):
-        c = gen_case(ctx.rng, small=True)
+
+    def stream():
+        for c in probes():
+            yield c
+        for i in range(budget):
+            yield gen_case(ctx.rng, small=True)
+    for c in stream():
         n += 1
         try:
             msg = oracle(c)
@@ -796,15 +882,17 @@ def _smaller(c):
             for j in range(len(ev)):
                 yield with_call(i, {**call, "events": evs[:k] + [ev[:j] + ev[j + 1:]] + evs[k + 1:]})
         base = {k: v for k, v in call.items() if k != "boundary"}
+        if call.get("defaults"):
+            yield with_call(i, {k: v for k, v in base.items() if k != "defaults"})
         if call["eta"] != [None, None]:
             yield with_call(i, {**base, "eta": [None, None]})
         if call["pt"] != [None, None]:
             yield with_call(i, {**base, "pt": [None, None]})
-        if call["alg"] != "antikt":
+        if call["alg"] != "antikt" and not call.get("defaults"):
             yield with_call(i, {**base, "alg": "antikt"})
         if call["R"] != 0.5:
             yield with_call(i, {**base, "R": 0.5})
-        if call["charged"]:
+        if call["charged"] and not call.get("defaults"):
             yield with_call(i, {**base, "charged": False})
 
 
@@ -815,13 +903,25 @@ LEVEL_TEXT = ("Theorems (Coq, closed under the global context, for ALL prior fil
               "associated = non-negative-status (charged only if requested) particles with dR < R in event order, each "
               "with its event index - independent of the prior content and of which events have jets (induction over "
               "the event list with the file state as invariant); read_jet_data on those rows returns them jet by jet; "
-              "rejected inputs (R <= 0, negative bound, unset status) are characterised. The hand model is run against "
-              "the real code on every run, with fastjet queried by the harness for the oracle data.")
-LEVEL_NOTE = ("PARTIAL BY NATURE: the clustering, the perp/eta/phi accessors and dR are fastjet's - oracles (section "
-              "variables) that the harness fills with fastjet's own answers (same algorithm and R, ptmin 0, no selector); "
-              "nothing is proved about them. Trusted besides: Coq kernel/vm_compute; the hand model Model/Jets.v "
-              "(validated by correspondence only, no translator); the file system as a value ('w' truncates, 'a' "
-              "appends) and the csv round trip; exact arithmetic instead of IEEE rounding, pT comparisons on squares.")
+              "rejected inputs (R <= 0, negative bound, unset status) are characterised. TIE TO THE SOURCE: the bodies of "
+              "__init__, __initialize_and_check_parameters, create_fastjet_PseudoJets, fill_associated_particles, "
+              "jet_hole_subtraction, write_jet_output, perform_jet_finding and read_jet_data are re-translated from the "
+              "current JetAnalysis.py on every run (statements, operators, constants, argument order, defaults, file "
+              "modes, row layouts, parsed column types) and the hand model is proved EQUAL to them for all arguments "
+              "(C20_source_defaults/params/pseudojets/fill/hole_subtraction/write/perform/read, + C20_source_example), so "
+              "the property theorems are about what the source says now. The hand model is also run against the real "
+              "code on every run, with fastjet queried by the harness for the oracle data.")
+LEVEL_NOTE = ("PARTIAL BY NATURE: the clustering, the perp/eta/phi accessors, delta_phi_to and sqrt are fastjet's/numpy's - "
+              "oracles (section variables) that the harness fills with fastjet's own answers (same algorithm and R, ptmin 0, "
+              "no selector); nothing is proved about them. Trusted besides: Coq kernel/vm_compute; the translator "
+              "gen_jets.py with its runtime Model/JetsRt.v (the reading of the Python/csv/file/fastjet primitives; the file "
+              "system as a value); exact arithmetic instead of IEEE rounding; `perp() < bound` against the model's "
+              "comparison on squares under the hypothesis that perp() is the exact non-negative root on the compared jets. "
+              "Hand-written and only corresponded (no source theorem): get_jets / get_associated_particles, the genkt "
+              "branch, the state of the object after an exception.")
 TECHNIQUE = ("Coq proof by induction over the event list (inner induction over the jets of an event) with the file "
-             "content as invariant, and over the written jets for the reader; vm_compute correspondence of the hand "
-             "model against the real code with fastjet-provided oracle tables")
+             "content as invariant, and over the written jets for the reader; fail-closed Python-ast translation of the "
+             "JetAnalysis method bodies into Gallina (exception / file-state monads, loops as folds with the carried "
+             "variables) and proofs of equality with the hand model (loop invariants by induction, case analysis on the "
+             "guards, nra for the comparison on squares); vm_compute correspondence of the hand model against the real "
+             "code with fastjet-provided oracle tables; targeted probes for the extracted constants and branches")
